@@ -335,6 +335,16 @@ func execDraw(ops []shadow.Op) (string, string) {
 				continue
 			}
 			c := m.C[o.Y*m.W+o.X]
+			if o.CS >= 3 {
+				nc := shadow.Recomb(c.Comb)
+				if nc == nil {
+					continue
+				}
+				s.SetContent(o.X, o.Y, c.R, nc, c.St.Style())
+				touch(o.X, o.Y, c.R, nc, c.St)
+				m.Set(o.X, o.Y, c.R, nc, c.St)
+				continue
+			}
 			s.SetContent(o.X, o.Y, c.R, append([]rune{}, c.Comb...), c.St.Style())
 		case "fill", "clear":
 			rn, sp := o.R, o.Sp
